@@ -152,6 +152,12 @@ class Units:
             return Tup([self.join(x, y) for x, y in zip(a.items, b.items)])
         if isinstance(a, Seq) and isinstance(b, Seq):
             return Seq(self.join(a.elem, b.elem))
+        # an array (or a homogeneous sequence) on one arm, a tuple of its would-be elements on the other (`hdi(s) if c else (s[0], s[-1])`):
+        # element-wise, the array standing for each of its elements
+        for x, y in ((a, b), (b, a)):
+            if isinstance(x, Tup) and isinstance(y, (Lin, Seq)) and x.items:
+                e = y.elem if isinstance(y, Seq) else y
+                return Tup([self.join(it, e) for it in x.items])
         if a.kind == b.kind and a.kind in ("idx", "bool", "none", "str"):
             return a
         return TOP
